@@ -113,6 +113,9 @@ class Ref:
         o = w[0]
         if res in ("no-session", "no-cursor", "bad-op"):
             return      # harness-level refusal (e.g. in a shrunk sequence): nothing reached the library
+        if o == "fin" and res != "ok":
+            self.counts["balance"] = self.counts.get("balance", 0) + 1
+            self.fail.append(("balance", self.opno, "library-owned memory survives fin(): " + res))
         if o in ("init", "fin"):
             self.st, self.cur = {}, {}
             self.sessions = set()
